@@ -1027,3 +1027,131 @@ theorem result_log_sorted_keys_witness :
   decide
 
 end Pharmpy.C16
+
+namespace Pharmpy.C16
+
+/-! ### The name link of `Context._store_model`
+
+  Context-level stores are NOT atomic as a whole (the annotation rewrite and
+  the refusal to re-bind a name are known defects), but one part holds and
+  carries "no reader obtains a partially written entry as if complete" at the
+  name level: `store_key` runs after the `with db.transaction` block, so a
+  name is linked only once its key has committed. -/
+
+/-- **A name linked by an interrupted `_store_model` points to a committed
+    key**: for every file system, crash point and torn write, if the call
+    changed what is at `models/<name>`, then its transaction had completed —
+    PENDING of the key is absent and a reader of the key obtains exactly what it
+    obtains after the completed transaction. -/
+theorem linked_name_committed (name descr : String) (m : MDesc) (fs : FS) (j : Nat) (n : Option Nat)
+    (hlink : get (crash fs (ctxStore name descr m fs).1 j n) (namePath name) ≠ get fs (namePath name)) :
+    (dbStoreEntry m fs).2 = .ok () ∧
+    pexists (crash fs (ctxStore name descr m fs).1 j n) (pendingPath m.key) = false ∧
+    (dbRetrieve m.key (crash fs (ctxStore name descr m fs).1 j n)).2
+      = (dbRetrieve m.key (applyAll fs (dbStoreEntry m fs).1)).2 := by
+  -- operations of the transaction never address the name link
+  have hT : ∀ o ∈ (dbStoreEntry m fs).1, o.path ≠ namePath name := by
+    intro o ho
+    have hfoot : o.path = keyDir m.key ∨ o.path = metaDir m.key ∨ o.path = lockPath ∨ o.path = pendingPath m.key ∨
+        ∃ fs', BodyFoot m fs' o.path := by
+      simp only [dbStoreEntry, txn] at ho
+      split at ho
+      · rcases (openKey_paths ho).1 with e | e | e <;> simp [e]
+      · generalize hb : storeEntryBody m (apply (applyAll fs (openKey m.key fs)) (Op.create (pendingPath m.key))) = br at ho
+        have hbody : ∀ o ∈ br.1, ∃ fs', BodyFoot m fs' o.path :=
+          fun o ho => ⟨_, storeEntryBody_paths (by rw [hb]; exact ho)⟩
+        obtain ⟨b, r⟩ := br
+        have : o ∈ openKey m.key fs ∨ o = Op.create (pendingPath m.key) ∨ o ∈ b ∨ o = Op.unlink (pendingPath m.key) := by
+          cases r with
+          | error e =>
+            simp only [List.mem_append, List.mem_cons] at ho
+            rcases ho with ho | ho | ho
+            · exact Or.inl ho
+            · exact Or.inr (Or.inl ho)
+            · exact Or.inr (Or.inr (Or.inl ho))
+          | ok u =>
+            simp only [List.mem_append, List.mem_cons, List.not_mem_nil, or_false] at ho
+            rcases ho with (ho | ho | ho) | ho
+            · exact Or.inl ho
+            · exact Or.inr (Or.inl ho)
+            · exact Or.inr (Or.inr (Or.inl ho))
+            · exact Or.inr (Or.inr (Or.inr ho))
+        rcases this with ho | rfl | ho | rfl
+        · rcases (openKey_paths ho).1 with e | e | e <;> simp [e]
+        · simp [Op.path]
+        · exact Or.inr (Or.inr (Or.inr (Or.inr (hbody o ho))))
+        · simp [Op.path]
+    rcases hfoot with e | e | e | e | ⟨fs', e⟩
+    · rw [e]; simp [keyDir, namePath, modelsDir, ctxRoot, dbRoot]
+    · rw [e]; simp [metaDir, keyDir, namePath, modelsDir, ctxRoot, dbRoot]
+    · rw [e]; simp [lockPath, namePath, modelsDir, ctxRoot, dbRoot]
+    · rw [e]; simp [pendingPath, metaDir, keyDir, namePath, modelsDir, ctxRoot, dbRoot]
+    · rcases e with e | e | e | e | e | e | e | e <;> rw [e] <;>
+        simp [modelPath, resultsPath, metaDir, keyDir, datasetsDir, hashDir, namePath, modelsDir, ctxRoot, dbRoot]
+  have hops : (ctxStore name descr m fs).1
+      = ((dbStoreEntry m).andThen (fun _ => (storeKey name m.key).andThen fun _ => storeAnnotation name descr) fs).1 := rfl
+  rw [hops, andThen_fst] at hlink ⊢
+  cases hr : (dbStoreEntry m fs).2 with
+  | error e =>
+    exfalso
+    rw [hr] at hlink
+    exact hlink (get_crash_ne j n hT)
+  | ok u =>
+    rw [hr] at hlink
+    simp only at hlink ⊢
+    generalize hT1 : (dbStoreEntry m fs).1 = t at hlink hT ⊢
+    generalize hrest : (((storeKey name m.key).andThen fun _ => storeAnnotation name descr) (applyAll fs t)).1 = rest
+      at hlink ⊢
+    have hR : ∀ o ∈ rest, o.path = namePath name ∨ o.path = annotationsLock ∨ o.path = annotationsPath :=
+      fun o ho => ctxTail_paths (by rw [hrest]; exact ho)
+    refine ⟨trivial, ?_⟩
+    rcases Nat.lt_or_ge j t.length with hj | hj
+    · exfalso
+      rw [crash_append_left hj] at hlink
+      exact hlink (get_crash_ne j n hT)
+    · rw [crash_append_right hj]
+      have hnoP : pexists (applyAll fs t) (pendingPath m.key) = false := by
+        have := txn_ok_no_pending m.key (storeEntryBody m) fs hr
+        have e : (txn m.key (storeEntryBody m) fs).1 = t := hT1
+        rwa [e] at this
+      have hget : ∀ p, p ≠ namePath name → p ≠ annotationsLock → p ≠ annotationsPath →
+          get (crash (applyAll fs t) rest (j - t.length) n) p = get (applyAll fs t) p := by
+        intro p a1 a2 a3
+        apply get_crash_ne
+        intro o ho hop
+        rcases hR o ho with e | e | e
+        · exact a1 (hop ▸ e)
+        · exact a2 (hop ▸ e)
+        · exact a3 (hop ▸ e)
+      have hP : pexists (crash (applyAll fs t) rest (j - t.length) n) (pendingPath m.key) = false := by
+        unfold pexists
+        rw [hget]
+        · exact hnoP
+        all_goals simp [pendingPath, metaDir, keyDir, namePath, modelsDir, annotationsLock, annotationsPath, ctxRoot, dbRoot]
+      refine ⟨hP, ?_⟩
+      rw [dbRetrieve_result, dbRetrieve_result, hP, hnoP]
+      simp only [Bool.false_eq_true, if_false]
+      apply readEntry_congr
+      intro p hp
+      apply hget
+      all_goals
+        rcases hp with rfl | rfl | rfl | ⟨q, rfl⟩ | ⟨q, rfl⟩ <;>
+          simp [modelPath, resultsPath, metaDir, keyDir, datasetsDir, namePath, modelsDir, annotationsLock,
+            annotationsPath, ctxRoot, dbRoot]
+
+/-- What the theorem excludes: with `store_key` inside the transaction block
+    (`ctxStoreEarlyLink`) a crash between the link and the removal of PENDING
+    leaves the name bound to a key that never committed; a later store of
+    another model under that name succeeds, but the name still resolves to the
+    pending key. -/
+theorem early_link_witness :
+    let fs0 := runW [] [.init]
+    let fs := crash fs0 (ctxStoreEarlyLink "mA" "Model A" wM1 fs0).1 15 none
+    resolveName fs "mA" = some "K1" ∧ pexists fs (pendingPath "K1") = true ∧
+    (ctxStore "mA" "Model E" wM3 fs).2 = .ok () ∧
+    (ctxRetrieve "mA" (applyAll fs (ctxStore "mA" "Model E" wM3 fs).1)).2 = .error .pending ∧
+    -- the code as it is, same crash point: the name is not linked yet
+    resolveName (crash fs0 (ctxStore "mA" "Model A" wM1 fs0).1 15 none) "mA" = none := by
+  decide
+
+end Pharmpy.C16
